@@ -111,6 +111,21 @@ def check_vector(ctx, v, got, how):
                     bad("alpha", e, got["alpha"], {"npos": len(pk["pos"]), "nwin": len(pk["win"])})
         else:
             ctx.notes["skipped_by_margin"] = ctx.notes.get("skipped_by_margin", 0) + 1
+        # smooth=False: everything is evaluated at the discrete peak frequency
+        fraw = v["F"][pk["p"] - 1] / 20.0
+        mraw = min(min(abs((F / 20.0) / fraw - 1.35), abs((F / 20.0) / fraw - 2.0)) for F in v["F"])
+        if mraw > 2e-3 and "alpha_raw" in got:
+            e = L.ev(pk["alpha_raw"])
+            if L.close(e, got["alpha_raw"], rel=2e-5, abs_=1e-9):
+                ctx.replayed()
+            else:
+                bad("alpha(smooth=False)", e, got["alpha_raw"], {"at_smooth_fp": L.close(L.ev(pk["alpha"]), got["alpha_raw"], rel=2e-5, abs_=1e-9)})
+        if "gamma_noscale_raw" in got:
+            e = max(1.0, L.ev(pk["gamma_noscale_raw"]))
+            if L.close(e, got["gamma_noscale_raw"], rel=2e-5, abs_=1e-6):
+                ctx.replayed()
+            else:
+                bad("gamma(smooth=False)", e, got["gamma_noscale_raw"])
         if "gamma_raw" in got:
             e = max(1.0, L.ev(pk["gamma_raw"]))
             e2 = max(1.0, L.ev(pk["gamma_raw_at_max"]))
@@ -141,7 +156,8 @@ def run(ctx):
             for how, acc in (("DataArray", batch.spec), ("Dataset", ds.spec)):
                 res = {}
                 calls = {"tp": lambda a: a.tp(), "tp_raw": lambda a: a.tp(smooth=False), "fp": lambda a: a.fp(),
-                         "alpha": lambda a: a.alpha(), "gamma_raw": lambda a: a.gamma(scaled=False)}
+                         "alpha": lambda a: a.alpha(), "gamma_raw": lambda a: a.gamma(scaled=False),
+                         "alpha_raw": lambda a: a.alpha(smooth=False), "gamma_noscale_raw": lambda a: a.gamma(smooth=False, scaled=False)}
                 if D:
                     calls.update({"dp": lambda a: a.dp(), "dpm": lambda a: a.dpm(), "dpspr": lambda a: a.dpspr()})
                 for op, fn in calls.items():
